@@ -40,6 +40,7 @@ def calendar_rule(prog, run):
     if len(cands) != 1:
         run.bad("R4", "anchor calendar", "expected one day-count -> (y, m, d) conversion, found %d" % len(cands))
         return
+    time_of_day_rule(prog, run, cands[0])
     b = u.bodies[cands[0]]
     cx = A.Ctx(b, u)
     ret = sym.expr_local(b, 0)
@@ -131,6 +132,58 @@ def setter_rule(prog, run):
         run.check(kind == "update" or whole, "R5", "setter %s" % m, "%s the metadata (%s)" % ("replaces" if kind == "replace" else "updates", "takes the whole Metadata value" if whole else "one attribute"),
                   "`%s` takes a single attribute but replaces the builder's whole metadata: a title, creation time or language configured earlier is lost" % m, mir.loc_of(b))
     run.floor("R5", n, 3, "builder methods that write the metadata")
+
+
+def time_of_day_rule(prog, run, cal_fn, R="R4"):
+    """the caller of the calendar conversion: the day count handed to it is secs / 86400 and the three values printed after the date
+    are hour, minute and second of secs % 86400 - the extracted expressions are evaluated for all 86400 seconds of a day (in three
+    different days) and compared; the six printed values appear in the order Y, M, D, h, m, s"""
+    from .. import mir, sym
+    from .. import absint as A
+    u = prog.lib
+    callers = [f for f, b in u.bodies.items() if not b["in_test_cfg"] and any(nm == cal_fn for _bb, _t, nm, _i in mir.calls(b))]
+    if len(callers) != 1:
+        run.bad(R, "anchor timestamp formatter", "expected one caller of the calendar conversion, found %d" % len(callers))
+        return
+    b = u.bodies[callers[0]]
+    disp = []
+    dayarg = None
+    for bb, t, nm, info in mir.calls(b):
+        if nm == cal_fn:
+            dayarg = sym.expr(b, t["args"][0])
+        elif nm and mir.norm(nm).split("::")[-1] in ("new_display", "new_lower_hex", "new_debug") and "fmt" in nm:
+            e = sym.expr(b, t["args"][0])
+            while e[0] == "ref":
+                e = e[1]
+            disp.append(e)
+    ok_day = dayarg is not None and dayarg[0] == "bin" and dayarg[1] == "Div" and dayarg[2][0] == "arg" and dayarg[3][:2] == ("const", 86400)
+    run.check(ok_day, R, "day count = secs / 86400", "days_to_ymd(secs / 86400)", "the calendar conversion is given %s, not the Unix second divided by 86400" % (sym.show(dayarg)[:80] if dayarg else "?"), mir.loc_of(b))
+    if len(disp) != 6:
+        run.bad(R, "timestamp fields", "expected six formatted values (Y, M, D, h, m, s), found %d" % len(disp), mir.loc_of(b))
+        return
+    ymd_ok = all(d[0] == "proj" and str(d[2]) == str(i) and d[1][0] == "call" and d[1][3] == cal_fn for i, d in enumerate(disp[:3]))
+    run.check(ymd_ok, R, "date fields order", "year, month, day = components 0, 1, 2 of the calendar conversion, in that order", "the first three printed values are not (year, month, day) of the calendar conversion in order: %s" % [sym.show(d)[:40] for d in disp[:3]], mir.loc_of(b))
+    bad = None
+    try:
+        fns = []
+        for e in disp[3:]:
+            leaves = [y for y in sym.walk(e) if isinstance(y, tuple) and y and y[0] == "arg"]
+            if not leaves or any(l_[1] != leaves[0][1] for l_ in leaves):
+                raise ValueError("time field does not depend on the timestamp parameter alone")
+            fns.append(A.compile_expr(e, [A.L_freeze(leaves[0])]))
+        for day in (0, 1, 19999):
+            for s_ in range(86400):
+                got = tuple(f(day * 86400 + s_) for f in fns)
+                if got != (s_ // 3600, (s_ % 3600) // 60, s_ % 60):
+                    bad = (day * 86400 + s_, got, (s_ // 3600, (s_ % 3600) // 60, s_ % 60))
+                    break
+            if bad:
+                break
+    except Exception as ex:
+        run.bad(R, "time of day", "cannot evaluate the hour/minute/second expressions (fail closed): %s" % ex, mir.loc_of(b))
+        return
+    run.check(bad is None, R, "time of day", "hour, minute, second of secs % 86400 for all 86400 seconds of a day",
+              "" if bad is None else "Unix second %d is printed as %02d:%02d:%02d, it is %02d:%02d:%02d" % ((bad[0],) + tuple(bad[1]) + tuple(bad[2])), mir.loc_of(b))
 
 
 def language_rule(prog, run, R="R6"):
